@@ -31,7 +31,9 @@ out.append("Checks that were *strengthened because they missed a change* (each m
            "`until` outside real-time mode; blocking steps); round 5: C15 (three-component version strings such as 2.1.0), "
            "C18 (one-shot iterables as source set of `connect_many_to_one`), C11 (children lists with several model "
            "types, grandchildren), C08 (the derived operators `<=`, `>=`, `!=`), C13 (real-time mode with a simulator "
-           "that queues steps for itself through `set_event()` before the malformed reply).\n")
+           "that queues steps for itself through `set_event()` before the malformed reply); round 6: C03 (persistent outputs "
+           "announced for a later time, constant offset). After round 5 C14 got a second, generated in-process class, which "
+           "found F28.\n")
 out.append("| seeded defect | origin | checks run -> verdict | what it is |")
 out.append("|---|---|---|---|")
 n = caught = 0
